@@ -75,6 +75,12 @@ def load_module(prog_name, variant, program=None):
     return mod
 
 
+# name errors raised by ptera, with what they exposed when they were raised: the engine asks them
+# again later, when the probes of that moment are gone (C16: the error *exposes* annotation and
+# provenance -- also to a handler outside the with-block)
+NAME_ERRORS = []
+
+
 def outcome_of(thunk):
     try:
         v = thunk()
@@ -83,6 +89,8 @@ def outcome_of(thunk):
         # alive in a cycle until the next collection, in this twin only
         e.__traceback__ = None
         c = canon(e)
+        if type(e).__name__ == "PteraNameError" and len(NAME_ERRORS) < 8:
+            NAME_ERRORS.append((e, c))
         e = None
         return ["exc", c], None
     return ["ret", canon(v)], v
